@@ -134,6 +134,94 @@ def periodOfRateQ (fl : Rat → Rat) (rate : Rat) : Int := roundHalfEven (fl (10
 /-- the pinned snapshot (finding F7): `int(1e9 / rate)` -/
 def periodOfRateUnfixedQ (fl : Rat → Rat) (rate : Rat) : Int := (fl (1000000000 / rate)).floor
 
+/-! ### Datasets: the `to_dataset` writers, `channel_class`, the `from_dataset` readers (channel.py) -/
+
+/-- the `Kind` attribute as stored: absent (format v1), a `str`, or `bytes` (decoded before comparing) -/
+inductive KindAttr where
+  | absent
+  | str (s : String)
+  | bytes (s : String)
+deriving Repr, DecidableEq
+
+inductive Payload where
+  | plain (vals : List Int)                 -- a simple numerical dataset
+  | compound (rows : List C01.Sample)       -- fields `Timestamp`, `Value`
+deriving Repr, DecidableEq
+
+/-- what an HDF5 channel dataset carries: the attributes the readers look at and the stored numbers;
+    `rate` is the exact value of the stored double -/
+structure Dset where
+  kind : KindAttr
+  start : Option Int
+  stop : Option Int
+  rate : Option Rat
+  payload : Payload
+deriving Repr, DecidableEq
+
+inductive ChanClass where
+  | continuous
+  | timeSeries
+  | timeTags
+deriving Repr, DecidableEq
+
+/-- `channel_class`: the `Kind` attribute decides when present (unknown text: `RuntimeError`); without it (format
+    v1) a compound dataset is a time series, a simple one is continuous iff it has a sample rate, else `IndexError`. -/
+def channelClass (d : Dset) : Except String ChanClass :=
+  let byKind (k : String) : Except String ChanClass :=
+    if k = "TimeTags" then .ok .timeTags
+    else if k = "TimeSeries" then .ok .timeSeries
+    else if k = "Continuous" then .ok .continuous
+    else .error "RuntimeError"
+  match d.kind with
+  | .str k => byKind k
+  | .bytes k => byKind k
+  | .absent =>
+    match d.payload with
+    | .plain _ => if d.rate.isSome then .ok .continuous else .error "IndexError"
+    | .compound _ => .ok .timeSeries
+
+/-- `Continuous.to_dataset` / `TimeSeries.to_dataset` / `TimeTags.to_dataset`.  A time series reads its own
+    `start`/`stop` from the first/last timestamp (`IndexError` when empty); time tags store no time range. -/
+def toDataset (fl : Rat → Rat) : C01.Src → Except String Dset
+  | .cont c => .ok ⟨.str "Continuous", some c.start, some c.stop, some (sampleRateQ fl c.dt), .plain c.data⟩
+  | .ts l =>
+    match l.head?, l.getLast? with
+    | some f, some e => .ok ⟨.bytes "TimeSeries", some f.1, some (e.1 + 1), none, .compound l⟩
+    | _, _ => .error "IndexError"
+  | .tags t => .ok ⟨.str "TimeTags", none, none, none, .plain t.data⟩
+
+/-- `channel_class(dset).from_dataset(dset)`; a missing attribute is a `KeyError`; a payload of the wrong shape
+    for the class is outside the model. -/
+def fromDataset (fl : Rat → Rat) (d : Dset) : Except String C01.Src :=
+  match channelClass d with
+  | .error e => .error e
+  | .ok .continuous =>
+    match d.start, d.rate, d.payload with
+    | some st, some r, .plain vals => .ok (.cont ⟨st, periodOfRateQ fl r, vals⟩)
+    | some _, some _, .compound _ => .error "outside-model"
+    | _, _, _ => .error "KeyError"
+  | .ok .timeSeries =>
+    match d.payload with
+    | .compound rows => .ok (.ts rows)
+    | .plain _ => .error "outside-model"
+  | .ok .timeTags =>
+    match d.payload with
+    | .plain vals => .ok (.tags ⟨vals, vals.head?.getD 0, (vals.getLast?.map (· + 1)).getD 0⟩)
+    | .compound _ => .error "outside-model"
+
+/-- what reading back can recover of a source: time tags lose the slice bounds (they are not stored) -/
+def reread : C01.Src → C01.Src
+  | .tags t => .tags ⟨t.data, t.data.head?.getD 0, (t.data.getLast?.map (· + 1)).getD 0⟩
+  | s => s
+
+/-- the channel of the cropped file as `lk.File(new)[name]` sees it: slice, write (if non-empty), read -/
+def cropExportRead (fl : Rat → Rat) (s : C01.Src) (a b : Int) : Except String (Option C01.Src) :=
+  if channelWritten s a b then
+    match toDataset fl (cropChannel s a b) with
+    | .error e => .error e
+    | .ok d => (fromDataset fl d).map some
+  else .ok none
+
 /-! ### protocol -/
 open Verif.Proto
 
@@ -213,6 +301,38 @@ def showAttrRes : AttrRes → String
   | .magnitude x y => "magnitude " ++ x ++ " | " ++ y
   | .noSuchAttribute => "no-such-attribute"
 
+def showKind : KindAttr → String
+  | .absent => "absent"
+  | .str k => "str:" ++ k
+  | .bytes k => "bytes:" ++ k
+
+def showOpt {α} (f : α → String) : Option α → String
+  | none => "N"
+  | some x => f x
+
+def showDset (d : Dset) : String :=
+  "kind=" ++ showKind d.kind ++ " start=" ++ showOpt showInt d.start ++ " stop=" ++ showOpt showInt d.stop ++
+  " rate=" ++ showOpt showRat d.rate ++ " " ++
+  (match d.payload with
+   | .plain v => "plain " ++ showIntList v
+   | .compound r => "compound " ++ C01.showSamples r)
+
+def showClass : ChanClass → String
+  | .continuous => "Continuous"
+  | .timeSeries => "TimeSeries"
+  | .timeTags => "TimeTags"
+
+def kindAttr? (s : String) : Option KindAttr :=
+  if s == "absent" then some .absent
+  else if s.startsWith "str:" then some (.str (s.drop 4).toString)
+  else if s.startsWith "bytes:" then some (.bytes (s.drop 6).toString)
+  else none
+
+def showExcept {α} (f : α → String) : Except String α → Option String
+  | .ok x => some (f x)
+  | .error "outside-model" => none
+  | .error e => some e
+
 def handle : List String → Option String
   | ["c05.cal", times, start, stop] => do
     let items ← calItems? times
@@ -260,6 +380,28 @@ def handle : List String → Option String
   | ["c05.round", x] => do
     let x ← rat? x
     some (toString (roundHalfEven x))
+  | "c05.todset" :: rest => do
+    let (s, ws) ← C01.mkSrc? rest
+    if ws ≠ [] then none else showExcept showDset (toDataset flDouble s)
+  | "c05.readback" :: rest => do
+    -- to_dataset then channel_class(dset).from_dataset(dset)
+    let (s, ws) ← C01.mkSrc? rest
+    if ws ≠ [] then none
+    else showExcept C01.showSrc (match toDataset flDouble s with | .error e => .error e | .ok d => fromDataset flDouble d)
+  | ["c05.class", kind, shape, hasRate] => do
+    -- kind: absent | str:<text> | bytes:<text>; shape: plain | compound; hasRate: T/F
+    let k ← kindAttr? kind
+    let hr ← bool? hasRate
+    let pl ← if shape == "plain" then some (Payload.plain []) else if shape == "compound" then some (Payload.compound []) else none
+    showExcept showClass (channelClass ⟨k, some 0, some 0, if hr then some 1 else none, pl⟩)
+  | "c05.cropread" :: rest => do
+    -- the channel of the cropped file as read back: "absent" | source
+    let (s, ws) ← C01.mkSrc? rest
+    match ws with
+    | [a, b] => do
+      let a ← int? a; let b ← int? b
+      showExcept (fun (r : Option C01.Src) => match r with | none => "absent" | some x => C01.showSrc x) (cropExportRead flDouble s a b)
+    | _ => none
   | _ => none
 
 end Verif.C05
